@@ -16,10 +16,6 @@ import (
 )
 
 func main() {
-	if os.Getenv("C19_PROBE") != "" {
-		probeMain()
-		return
-	}
 	if os.Getenv("C19_CHILD") != "" {
 		childMain()
 		return
@@ -42,6 +38,12 @@ func rules(h *harness.H) {
 	h.AddRule("programs: PRNG(seed,layer,case) type-directed generator over i8..u64,f32,f64 (gen.go); each function is run on boundary+random " +
 		"argument vectors (args.go); an evaluation is judged when spec.md defines its outcome (value or division-by-zero error); " +
 		"distinct_nontrivial = distinct function source texts with >=1 judged call; spec-silent outcomes are counted per reason and never judged")
+	h.AddRule("ctl layer: control-flow functions (gen.go genCtlFunc) — if-chains with 0..4 else-if arms at any depth inside range(1-3 args) / conditional / infinite loops, " +
+		"break/continue/return/assignments in any arm, nested chains and loops, an order-sensitive i64 accumulator updated before, inside and after the chains; " +
+		"arm conditions compare loop variables, counters or parameters with small constants and the constants +-1 are fed back as argument hints; " +
+		"arms_entered_<loop|top>_<arm> / arm_exits_..._<break|continue|return> count judged calls per arm index")
+	h.AddRule("a real call that has not returned after 10 s although the reference finished the same call in < 10000 statements is the violation c19:call-does-not-terminate:<features>:<shape>; " +
+		"other watchdog hits stay inconclusive")
 	h.Assume("calling convention: narrow integers are passed canonically in a 32-bit register (sign-extended if signed, zero-extended if unsigned, as the compiler emits literals); results are read from the low `width` bits (as arc/go/stl/wasm/node.go does)")
 	h.Assume("f32/f64 arithmetic, comparisons, int->float and f64->f32 conversions are IEEE 754 round-to-nearest-even (spec.md names the types but not the rounding); any NaN equals any NaN")
 	h.Assume("loop semantics (range/conditional/infinite for, break, continue) come from docs/site/.../arc/reference/loops.mdx: spec.md has no loop section (it says 'No loops') although the property statement lists bounded loops")
